@@ -1,0 +1,32 @@
+//go:build verif
+// +build verif
+
+// Contracts for deductive verification (govc, /verif). Comment-only file.
+
+package pow
+
+// Functions of their arguments and of the unchanging ledger / configuration.
+//@ func PoWConsensus.ParseConsensusStorage
+//@   noverify
+//@   pure
+//@ func PoWConsensus.refreshDifficulty
+//@   noverify
+//@   pure
+//@ func PoWConsensus.IsProofed
+//@   noverify
+//@   pure
+
+// A block is accepted only with an id that is the hash of its header and meets
+// the target the chain's own history prescribes, a timestamp not before its
+// parent's, and a signature under a key that hashes to the proposer.
+//@ func PoWConsensus.CheckMinerMatch
+//@   property C16
+//@   let cc = pow.Crypto
+//@   let k = cc.GetEcdsaPublicKeyFromJsonStr(block.GetPublicKey())
+//@   let bits = pow.refreshDifficulty(block.GetPreHash(), block.GetHeight())
+//@   ensures id_is_header_hash: result0 ==> block.MakeBlockId#1() == nil && bytesEq(block.MakeBlockId(), block.GetBlockid())
+//@   ensures target_from_history: result0 ==> pow.refreshDifficulty#1(block.GetPreHash(), block.GetHeight()) == nil && typeisval(pow.ParseConsensusStorage(block), PoWStorage) && pow.ParseConsensusStorage(block).(PoWStorage).TargetBits == bits
+//@   ensures hash_meets_target: result0 ==> pow.IsProofed(block.GetBlockid(), bits)
+//@   ensures not_before_parent: result0 ==> pow.Ledger.QueryBlock#1(block.GetPreHash()) == nil && block.GetTimestamp() >= pow.Ledger.QueryBlock(block.GetPreHash()).GetTimestamp()
+//@   ensures key_binds_address: result0 ==> cc.GetEcdsaPublicKeyFromJsonStr#1(block.GetPublicKey()) == nil && cc.VerifyAddressUsingPublicKey(str(block.GetProposer()), k)
+//@   ensures signature_valid: result0 ==> cc.VerifyECDSA(k, block.GetSign(), block.GetBlockid())
